@@ -704,7 +704,26 @@ def eval_c05(res, traces, stream):
     return stats
 
 
+K9_WITNESS = ["a", "b", "Backspace", "C-r", "M-X", "C-r", "o", "M-X", "C-g", "u", "u", "F12"]
+
+
+def c05_known(res, exe):
+    """re-confirm the recorded finding K9 on the implementation"""
+    import ptydrive
+    known = {f["id"] for f in known_findings() if f["property"] == "C05" and f["status"] == "known"}
+    if "K9" in known:
+        c = Case(K9_WITNESS, mode="vi", prompt="> ", timeout="none", history=["one"])
+        r = ptydrive.run_case(exe, c.spec(), p_tty.chunks_of(c.keys))
+        lines = ["".join(chr(x) for x in dec(l.split()[1])) for l in r["obs"] if l.startswith("K ")]
+        if len(lines) >= 3 and lines[-2] == "aba":
+            res.known_confirmed.append(("K9", "vi mode with Alt keys (no key-sequence timeout): text 'a' left by typing ab + Backspace, "
+                                        "C-r, M-X (leaves insert mode inside the search: Changeset::end pops the search's Begin marker), "
+                                        "C-r o (hit 'one': its delete notification merges into the Delete below the mark), M-X, C-g: the abort "
+                                        "restores 'a' but the next undo shows 'aba', a text that never existed (then 'a')"))
+
+
 def c05_corr(res, exe, driver, tier, seed, tmp):
+    c05_known(res, exe)
     cases = p_tty.c05_cases(tier, seed)
     run_tty_cases(res, exe, driver, cases, tmp, "undo", rng=random.Random(seed), typeahead=0.3)
     ocases = c05_oracle_cases(tier, seed)
